@@ -82,7 +82,7 @@ def kani_replay_many(ROOT, BUILD, ENV, u, obls, run_group, timeout=2400):
         c = ["cargo", "kani"] + list(u.get("kani_flags", [])) + [
             "-Z", "concrete-playback", "--concrete-playback=print", "--output-format", "terse", "--exact",
             "--harness", u.get("harness_mod", "contracts") + "::" + o["harness"]]
-        run_group(c, crate, e, timeout, lf)
+        run_group(c, crate, e, timeout, lf, mem_gb=44)  # trace generation is memory hungry
         texts[o["name"]] = open(lf).read()
 
     cmd = ["cargo", "kani"] + list(u.get("kani_flags", [])) + [
